@@ -313,6 +313,27 @@ def search(ctx):
                 Spheres([Sphere(n=1.5, r=r, center=c) for c, r in zip(cs, rs)], warn=False)
                 if any(issubclass(x.category, OverlapWarning) for x in w):
                     ctx.violation("C20:warn-disabled", "warning issued although warn=False", dict(kind="warn", **info))
+            # the collection as ONE scatterer: a point is inside exactly when it is inside a member, and the reported bounding box
+            # contains every interior point
+            if i % 4 == 0:
+                pts = np.vstack([c + rng.normal(size=(6, 3)) * r * 0.6 for c, r in zip(cs, rs)] + [rng.normal(size=(6, 3)) * 3])
+                dist = np.linalg.norm(pts[:, None, :] - cs[None], axis=-1) - rs[None]
+                sure = np.abs(dist).min(axis=1) > 1e-9
+                want_in = (dist < 0).any(axis=1)
+                ctx.tried("spheres-as-one-scatterer", (m, i))
+                got_in = impl_call(lambda: np.asarray(sp.contains(pts), dtype=bool))
+                if isinstance(got_in, tuple) and len(got_in) == 2 and got_in[0] == "err":
+                    ctx.violation("C20:collection-contains-raises:%s" % got_in[1], "contains() of a collection of %d spheres raised %s" % (m, got_in[1]), dict(kind="collection", **info))
+                elif not np.array_equal(got_in[sure], want_in[sure]):
+                    ctx.violation("C20:collection-contains", "a collection of %d spheres reports %d of %d points inside, %d are inside a member" % (m, int(got_in[sure].sum()), int(sure.sum()), int(want_in[sure].sum())),
+                                  dict(kind="collection", **info))
+                bb = impl_call(lambda: np.asarray(sp.bounds, dtype=float))
+                if isinstance(bb, tuple) and len(bb) == 2 and bb[0] == "err":
+                    ctx.violation("C20:collection-bounds-raises:%s" % bb[1], "the bounding box of a collection of %d spheres cannot be asked for: bounds raises %s" % (m, bb[1]), dict(kind="collection", **info))
+                else:
+                    ins = pts[want_in & sure]
+                    if bb.shape != (3, 2) or (len(ins) and not (np.all(ins >= bb[:, 0] - 1e-12) and np.all(ins <= bb[:, 1] + 1e-12))):
+                        ctx.violation("C20:collection-bounds", "interior points of a collection of %d spheres lie outside its reported bounds %r" % (m, bb.tolist()), dict(kind="collection", **info))
         except Exception as ex:
             ctx.violation("C20:spheres-raises:%s" % type(ex).__name__, "Spheres check raised %r" % (ex,), dict(kind="raises", **info))
     # ---- constructor guards
